@@ -363,6 +363,40 @@ def corpus_repo(ctx, sc, stats, traces):
                 traces.append(t)
 
 
+# std packages (the property's quantifier names std+cmd): small ones, chosen so that their import graphs contain
+# GOROOT-vendored packages, whose import path as written in the source (golang.org/x/...) differs from the
+# package path (vendor/golang.org/x/...), assembly stubs and internal/ packages
+STD_QUICK = ["vendor/golang.org/x/crypto/chacha20", "vendor/golang.org/x/net/dns/dnsmessage", "container/list",
+             "unicode/utf16", "encoding/base32", "text/tabwriter"]
+STD_THOROUGH = STD_QUICK + ["vendor/golang.org/x/text/unicode/bidi", "vendor/golang.org/x/net/http/httpguts", "net/textproto",
+                            "mime", "encoding/json", "go/scanner", "text/template/parse", "crypto/sha256", "sort", "bufio",
+                            "regexp/syntax", "archive/tar", "compress/flate", "math/big", "sync", "context"]
+
+
+def corpus_std(ctx, sc, stats, traces):
+    pats = STD_QUICK if (ctx.quick or os.environ.get("VERIF_CAP")) else STD_THOROUGH
+    rc, so, se = vlib.sh(["go", "build"] + pats, cwd=vlib.REPO, env=vlib.go_env(), timeout=3000)
+    if rc != 0:
+        raise Inconclusive("std packages do not build: %s" % (so + se)[-1500:])
+    groups = [pats] if ctx.quick else [pats[i:i + 6] for i in range(0, len(pats), 6)]
+
+    def one(g):
+        return g, sc.run(vlib.REPO, g, timeout=3600, fresh_cache=False)
+    for g, r in vlib.pmap(one, groups, workers=2):
+        stats["std_runs"] = stats.get("std_runs", 0) + 1
+        if crashed(r):
+            ctx.violation(vlib.canon_key({"std-crash": g, "sig": crash_signature(r["stderr"])}),
+                          "staticcheck %s on the std packages %s: %s" % ("hung" if r["hung"] else "crashed", g, crash_signature(r["stderr"]) or r["stderr"][:300]),
+                          {"kind": "crash", "patterns": g, "stderr": r["stderr"][:4000], "rc": r["rc"]})
+            continue
+        judge_output(ctx, r, "std", lambda f, l: {"file": f.split("/src/", 1)[-1] if f else ""}, stats)
+        if r["trace"] and os.path.exists(r["trace"]):
+            for t in rt.analyse_file(r["trace"], "std:" + " ".join(g)):
+                t.meta = {"kind": "std", "patterns": g}
+                stats["std_packages"] = stats.get("std_packages", 0) + len(t.graph["initial"])
+                traces.append(t)
+
+
 def corpus_testdata(ctx, sc, stats, traces, nmax):
     """testdata packages that compile standalone (copied into a scratch module each)"""
     cands = []
@@ -490,6 +524,7 @@ def run(ctx):
 
     # 5. corpora
     corpus_repo(ctx, sc, stats, traces)
+    corpus_std(ctx, sc, stats, traces)
     if not ctx.quick:
         corpus_testdata(ctx, sc, stats, traces, max(6, capn // 20) if capn else 150)
 
@@ -522,6 +557,7 @@ def run(ctx):
         "strict_traces": stats.get("strict_traces", 0),
         "problems_reported": stats.get("problems_reported", 0),
         "repo_packages": stats.get("repo_packages", 0),
+        "std_packages": stats.get("std_packages", 0),
         "testdata_compiling": stats.get("testdata_compiling"),
         "poisoned_atoms": sorted(poisoned),
         "negative_selftests": nneg,
